@@ -700,6 +700,38 @@ impl Gen {
       }
       _ => outs.push(TxOut { value: Amount::from_sat(reward), script_pubkey: if self.rng.chance(1, 2) { p2tr(7) } else { p2wpkh(1) } }),
     }
+    // a coinbase may carry a runestone too (transaction index 0): it can mint, and it can etch an
+    // UNNAMED rune (a named one can never be committed to, a coinbase has no inputs to commit with)
+    if self.p_runestone > 0 && self.rng.chance(1, 6) {
+      let n_out_total = outs.len() + 1;
+      let script = if self.rng.chance(1, 2) {
+        dist.hit("cb_runestone_unnamed_etching");
+        Runestone {
+          edicts: Vec::new(),
+          etching: Some(Etching {
+            divisibility: None,
+            premine: if self.rng.chance(2, 3) { Some(1 + self.rng.below(10_000) as u128) } else { None },
+            rune: None,
+            spacers: None,
+            symbol: None,
+            terms: if self.rng.chance(1, 2) {
+              Some(Terms { amount: Some(1 + self.rng.below(100) as u128), cap: Some(2 + self.rng.below(4) as u128), height: (None, None), offset: (None, None) })
+            } else {
+              None
+            },
+            turbo: false,
+          }),
+          mint: None,
+          pointer: if self.rng.chance(1, 3) { Some(self.rng.below(n_out_total as u64) as u32) } else { None },
+        }
+        .encipher()
+      } else {
+        dist.hit("cb_runestone_general");
+        self.runestone(height, 0, n_out_total, minimum, false, &[], dist).0
+      };
+      let at = self.rng.below(outs.len() as u64 + 1) as usize;
+      outs.insert(at, TxOut { value: Amount::ZERO, script_pubkey: script });
+    }
     let coinbase = Transaction {
       version: Version(2),
       lock_time: LockTime::ZERO,
